@@ -30,7 +30,9 @@ def run(tier, rep):
     ]
     jobs = [("N=2", dict(N=2, MaxSteps=2, Part=0, Parts=1, EmitMod=1)), ("N=3", dict(N=3, MaxSteps=2, Part=0, Parts=1, EmitMod=1)),
             # a candidate that may be rejected, followed by a container whose candidates lie deeper (8 nodes, every naming)
-            ("nested", dict(N=8, MaxSteps=2, Part=0 if thorough else 1, Parts=1, EmitMod=1, Family='"nested"'))]
+            ("nested", dict(N=8, MaxSteps=2, Part=0 if thorough else 1, Parts=1, EmitMod=1, Family='"nested"')),
+            # an element whose string value is spread over several text nodes (its own and a descendant's)
+            ("mixed", dict(N=6, MaxSteps=2, Part=0, Parts=1, EmitMod=1, Family='"mixed"'))]
     if thorough:
         jobs += [("N=4 part %d/5" % p, dict(N=4, MaxSteps=2, Part=p, Parts=5, EmitMod=8)) for p in range(5)]
         jobs += [("N=3,steps<=3", dict(N=3, MaxSteps=3, Part=0, Parts=1, EmitMod=6))]
